@@ -249,8 +249,13 @@ StepSet(c, F) ==
          [] c.ctrl.m = "raise" -> UnwindStep(c)
 
 \* all final configurations reachable from c
-RECURSIVE RunSet(_, _)
-RunSet(c, F) == IF Final(c) THEN {c} ELSE UNION { RunSet(d, F) : d \in StepSet(c, F) }
+\* (advanced as one frontier, so that runs which differ only in an iteration order already consumed -- and
+\* left no trace in the accumulator, the log or the deviation flag -- are followed once, not once per order)
+RECURSIVE RunFrontier(_, _)
+RunFrontier(S, F) ==
+  IF \A c \in S : Final(c) THEN S
+  ELSE RunFrontier(UNION { IF Final(c) THEN {c} ELSE StepSet(c, F) : c \in S }, F)
+RunSet(c, F) == RunFrontier({c}, F)
 
 \* deterministic fast path
 RECURSIVE Run(_, _)
